@@ -14,6 +14,7 @@ import base64
 import os
 import sys
 import tempfile
+import time
 from concurrent.futures import ThreadPoolExecutor
 
 sys.path.insert(0, os.path.join(os.path.dirname(os.path.abspath(__file__)), "..", "tools"))
@@ -42,9 +43,10 @@ def spec_cache(data, mode):
 
 def spec_b64(data, mode):
     out = []
-    for l in data.split(b"\n"):
-        if l == b"":
-            continue
+    lines = data.split(b"\n")
+    if lines and lines[-1] == b"":
+        lines.pop()
+    for l in lines:       # an empty line is an EMPTY document: the child gets one empty line for it
         doc = base64.b64decode(l)
         trailing = doc.endswith(b"\n")
         body = doc[:-1] if trailing else doc
@@ -110,7 +112,7 @@ def to_b64_docs(data, rng, single=False):
     return b"".join(d + b"\n" for d in docs)
 
 
-def run_case(exe, args, data, timeout):
+def run_case(exe, args, data, timeout, stages=None, from_file=False):
     """runs the wrapper; returns (status, stdout, trace_text)"""
     os.makedirs(SCRATCH, exist_ok=True)
     tf = tempfile.NamedTemporaryFile(dir=SCRATCH, prefix="trace-", delete=False)
@@ -118,10 +120,52 @@ def run_case(exe, args, data, timeout):
     fd = tf.fileno()
     env["PREPROCESS_VERIF_TRACE_FD"] = str(fd)
     try:
-        p = subprocess.Popen([exe] + args, stdin=subprocess.PIPE, stdout=subprocess.PIPE, stderr=subprocess.PIPE,
+        stdin_file = None
+        if from_file:     # stdin is a REGULAR FILE: the reader takes its mmap path
+            stdin_file = tempfile.NamedTemporaryFile(dir=SCRATCH, prefix="stdin-", delete=False)
+            stdin_file.write(data)
+            stdin_file.close()
+            stdin_file = open(stdin_file.name, "rb")
+        p = subprocess.Popen([exe] + args, stdin=stdin_file if from_file else subprocess.PIPE, stdout=subprocess.PIPE, stderr=subprocess.PIPE,
                              env=env, pass_fds=(fd,), start_new_session=True)
         try:
-            out, err = p.communicate(data, timeout=timeout)
+            if stages:
+                import threading
+
+                def feed():
+                    try:
+                        for k, chunk in enumerate(stages):
+                            if k:
+                                time.sleep(1.5)
+                            p.stdin.write(chunk)
+                            p.stdin.flush()
+                        p.stdin.close()
+                    except Exception:
+                        pass
+                th = threading.Thread(target=feed)
+                th.start()
+                import signal as _sig
+                killed = []
+
+                def _kill():
+                    killed.append(1)
+                    try:
+                        os.killpg(p.pid, _sig.SIGKILL)
+                    except Exception:
+                        p.kill()
+                wd = threading.Timer(timeout, _kill)
+                wd.start()
+                out = p.stdout.read()
+                err = p.stderr.read()
+                p.wait()
+                wd.cancel()
+                th.join()
+                if killed:
+                    raise subprocess.TimeoutExpired(exe, timeout)
+            elif from_file:
+                out, err = p.communicate(None, timeout=timeout)
+            else:
+                out, err = p.communicate(data, timeout=timeout)
             status = p.returncode
         except subprocess.TimeoutExpired:
             import signal
@@ -137,6 +181,9 @@ def run_case(exe, args, data, timeout):
     finally:
         tf.close()
         os.unlink(tf.name)
+        if from_file and stdin_file is not None:
+            stdin_file.close()
+            os.unlink(stdin_file.name)
     return status, out, trace, err
 
 
@@ -203,9 +250,29 @@ def main(argv):
                 cases.append(("foldfilter", ["-w", "300000"], name, data, mode))
             cases.append(("b64filter", [], name, to_b64_docs(data, c.rng, single=(name == "records20000")), mode))
 
+    # empty documents for b64filter (an empty line is a document of zero bytes)
+    for mode in ("eager", "readall", "echo"):
+        cases.append(("b64filter", [], "emptydocs", b"\nYQo=\n\n\nYg==\n\n", mode))
+    # the collector catches up with the feeder exactly at a multiple of the queue's 1023-entry page, then stdin
+    # stalls, then more input (names starting with "staged:" are fed in two parts with a 1.5 s pause)
+    first = b"".join(b"s%d\n" % i for i in range(4096)) + b"".join(b"s%d\n" % (i % 50) for i in range(5 * 1023 - 4096))
+    rest = b"".join(b"t%d\n" % (i % 30) for i in range(200))
+    staged = {"staged:5x1023": (first, rest)}
+    cases.append(("cache", [], "staged:5x1023", first + rest, "echo"))
+    cases.append(("cache", [], "staged:5x1023", first + rest, "eager"))
+    # stdin as a regular file (mmap path of the reader) with a line longer than the 1 MiB window that does not
+    # start at offset 0 (names starting with "file:")
+    bigline = b"short first line\n" + b"z" * 1200000 + b"\nlast\n"
+    cases.append(("cache", [], "file:bigline", bigline, "echo"))
+    cases.append(("foldfilter", ["-w", "2000000"], "file:bigline", bigline, "echo"))
+    cases.append(("foldfilter", ["-w", "40"], "file:bigline", bigline, "eager"))
+    cases.append(("b64filter", [], "file:bigline", to_b64_docs(bigline, c.rng, single=True), "echo"))
+    cases.append(("cache", [], "file:small", b"a\nb\na\n", "eager"))
+
     def do(case):
         tool, targs, name, data, mode = case
-        return run_case(repo_bin(tool), targs + [CHILD, mode], data, timeout)
+        return run_case(repo_bin(tool), targs + [CHILD, mode], data, timeout,
+                        stages=staged.get(name), from_file=name.startswith("file:"))
 
     with ThreadPoolExecutor(max_workers=6) as ex:
         results = list(ex.map(do, cases))
